@@ -123,6 +123,70 @@ def check(rep, jobs, table, phase):
                      "program %r split %s at offset %d: %s" % (prog, [len(p) for p in parts], start, sorted(disc)))
 
 
+def long_programs(rep, S, table, tier):
+    """Programs of 7-20 kB built by cycling through the line set, on instances with a library-managed buffer: one call,
+    two calls split at several points, and one call per line for a stretch around each growth point."""
+    code = [t for t in S if t.strip() and not t.startswith(";") and ":" not in t and not t.startswith("section") and not t.startswith("global")]
+    n = 0
+    for cfg in CFGS:
+        for rot in ((0, 7) if tier == "quick" else (0, 3, 7, 11, 19)):
+            for target in ((7000, 13500) if tier == "quick" else (6100, 7000, 12100, 13500, 19000)):
+                prog = []
+                size = 0
+                i = rot
+                while size < target:
+                    t = code[i % len(code)]
+                    prog.append(t)
+                    size += len(table[(t, cfg)]) // 2
+                    i += 1
+                want = "".join(table[(t, cfg)] for t in prog)
+                cut = []
+                pos = 0
+                for k, t in enumerate(prog):
+                    if pos < 5990 <= pos + len(table[(t, cfg)]) // 2 or pos < 11990 <= pos + len(table[(t, cfg)]) // 2:
+                        cut.append(k)
+                    pos += len(table[(t, cfg)]) // 2
+                deliveries = [[prog]]
+                for k in cut:
+                    for d in (-2, 0, 1, 3):
+                        if 0 < k + d < len(prog):
+                            deliveries.append([prog[:k + d], prog[k + d:]])
+                    a, b = max(1, k - 3), min(len(prog) - 1, k + 4)
+                    deliveries.append([prog[:a]] + [[x] for x in prog[a:b]] + [prog[b:]])
+                hs = []
+                for parts in deliveries:
+                    ops = ["i", hexec.cfg_ops(cfg)]
+                    for p in parts:
+                        ops.append("A" + hexec.esc("\n".join(p) + "\n"))
+                    ops.append("G")
+                    hs.append("\t".join(ops))
+                res = hexec.run(hs, dangerous=True, timeout=30)
+                from .c17 import fnv
+                wb = bytes.fromhex(want)
+                wantd = want if len(wb) <= 4096 else "#%d:%016x" % (len(wb), fnv(wb))
+                for parts, obs in zip(deliveries, res):
+                    rep.evaluations += 1
+                    rep.traces += 1
+                    rep.transitions += len(parts)
+                    n += 1
+                    disc = set()
+                    if hexec.is_crash(obs):
+                        disc.add("crash")
+                    else:
+                        g = next((o for o in obs if o.startswith("G:")), "G:-1::1").split(":")
+                        if any(o.startswith("A:") and o.split(":")[1] != "0" for o in obs):
+                            disc.add("rejected")
+                        elif g[1] != str(len(wb)):
+                            disc.add("offset")
+                        elif ":".join(g[2:-1]) != wantd:
+                            disc.add("bytes")
+                    if disc:
+                        rep.fail({"class": "long-internal", "cfg": "/".join(cfg), "ncalls": str(len(parts)), "size": str(len(wb))},
+                                 disc, {"long": True, "cfg": list(cfg), "rot": rot, "target": target, "ncalls": len(parts)},
+                                 "program of %d bytes (%d lines) on an internal buffer in %d calls: %s" % (len(wb), len(prog), len(parts), sorted(disc)))
+    return n
+
+
 def splits(prog):
     k = len(prog)
     for mask in range(1 << (k - 1)):
@@ -138,6 +202,13 @@ def splits(prog):
 
 
 def replay(r, verbose=False):
+    if r.get("long"):
+        rep = Report(PROP, "quick", 0)
+        rep.findings = []
+        S0 = line_set("quick") + NONCODE
+        S, table = singles(S0)
+        long_programs(rep, S, table, "thorough")
+        return bool(rep.pending)
     parts = [list(p) for p in r["parts"]]
     cfg = tuple(r["cfg"])
     obs = hexec.run([hist(parts, cfg, r["start"], r["fill"])], nproc=1)[0]
@@ -163,8 +234,9 @@ def run(tier, seed):
     rep.rule = ("line set S (one line per parser/encoder path, kept only if it assembles alone); programs = all ordered pairs "
                 "of S, all ordered triples of a core, all programs of <= 4/5 lines over a smaller core in ALL 2^(k-1) splits "
                 "into successive calls; start offsets {0,1,7,64}, buffer fills {00,cc,ff}, each program assembled a second "
-                "time in one call; oracle = concatenation of the single-line outputs under the same options (pure byte "
-                "relation). distinct_nontrivial = distinct programs (line sequences)")
+                "time in one call; programs of 7-20 kB on library-managed buffers in one call, in two calls split around each "
+                "growth point and one call per line around it; oracle = concatenation of the single-line outputs under the same "
+                "options (pure byte relation). distinct_nontrivial = distinct programs (line sequences)")
     S0 = line_set(tier) + NONCODE
     S, table = singles(S0)
     rep.bounds["line_set"] = len(S)
@@ -204,6 +276,10 @@ def run(tier, seed):
                     jobs.append((parts, CFGS[i % 3], start, ("00", "cc", "ff")[(i + start) % 3]))
         check(rep, jobs, table, "splits%d" % k)
         rep.bounds["all_splits_of_%d_line_programs" % k] = len(pool) ** k
+    # long programs on library-managed buffers: the same relation across buffer growth
+    if not rep.expired():
+        nlong = long_programs(rep, S, table, tier)
+        rep.bounds["long_programs_internal_buffer"] = nlong
     rep.states = len(progs)
     rep.distinct_n = len(progs)
     rep.sample({"history": hist([["nop", "ret"], ["mov rax, 0x10"]], CFGS[0], 7, "cc")})
